@@ -125,7 +125,7 @@ def _run(tape, out, elfi, root):
                                  all_rec=True)
     pil = sr.pilot(elfi, spec)
     bs = tape.int('batch_size', 1, 8)
-    seed = tape.int('seed', 0, 2 ** 20)
+    seed = sr.gen_seed(tape)
     stores, control0 = gen_store_set(tape, spec)
     control = control0
     on_disk = tape.chance('array_pool', 1, 2)
